@@ -21,6 +21,7 @@ import (
 	"runtime"
 	"strings"
 	"sync"
+	"sync/atomic"
 	"testing"
 	"time"
 
@@ -29,6 +30,7 @@ import (
 	"github.com/jech/storrent/config"
 	storfuse "github.com/jech/storrent/fuse"
 	"github.com/jech/storrent/tor"
+	"github.com/jech/storrent/verifhook"
 	"verifharness/fixture"
 	"verifharness/swarm"
 	"verifharness/vk"
@@ -91,6 +93,23 @@ type env struct {
 	honestSeedUp func() bool
 	keepHonest   func()    // reconnects an honest seed if storrent dropped the last one
 	honestGap    time.Time // last moment at which no honest seed was connected
+	slowHash     bool         // hashing takes virtual time in this history
+	hashing      atomic.Int64 // pieces that have entered hashing so far
+}
+
+// awaitHashing lets virtual time pass (no reads) until some piece enters hashing, at most two seconds:
+// the next read then lands while a piece has all of its data and is not verified yet.
+func (e *env) awaitHashing() {
+	if !e.slowHash {
+		return
+	}
+	h0 := e.hashing.Load()
+	for k := 0; k < 200 && e.hashing.Load() == h0; k++ {
+		time.Sleep(10 * time.Millisecond)
+	}
+	if e.hashing.Load() != h0 {
+		e.stats["reads_while_a_piece_is_being_hashed"]++
+	}
 }
 
 // readOnce performs one Read of n bytes with retries on (0,nil), judges it against the model.
@@ -230,6 +249,10 @@ func (e *env) evict(all bool, rng *rand.Rand) {
 }
 
 func newSeed(e *env, rng *rand.Rand, honest bool) *swarm.Remote {
+	return newSeedMode(e, rng, honest, nil)
+}
+
+func newSeedMode(e *env, rng *rand.Rand, honest bool, force *swarm.SeedMode) *swarm.Remote {
 	r := e.tr.Connect(swarm.RemoteOpts{Fast: rng.IntN(2) == 0, Ext: rng.IntN(2) == 0})
 	if r.Opt.Ext {
 		r.SendExt0(swarm.StdExt0(int64([]int{0, 5, 250}[rng.IntN(3)]), 0))
@@ -244,6 +267,9 @@ func newSeed(e *env, rng *rand.Rand, honest bool) *swarm.Remote {
 		case 2:
 			m.Silent = true
 		}
+	}
+	if force != nil {
+		m = *force
 	}
 	r.AutoSeed(m)
 	r.Honest = honest
@@ -309,6 +335,25 @@ func history(t *testing.T, c *vk.C, rng *rand.Rand, i int) map[string]int {
 		}
 		tr := sw.AddTorrent(g, swarm.TorOpts{})
 		e := &env{sw: sw, tr: tr, g: g, stats: st}
+		if i%2 == 0 {
+			// hashing a piece takes (virtual) time in half of the histories, as it does for multi-megabyte
+			// pieces: reads and evictions then land while a piece has all its data but is not yet verified
+			quit := make(chan struct{})
+			defer close(quit)
+			d := time.Duration(50+rng.IntN(400)) * time.Millisecond
+			e.slowHash = true
+			verifhook.SetPoint(func(name string) {
+				if name == "piece.finalise.hash.begin" {
+					e.hashing.Add(1)
+					select {
+					case <-time.After(d):
+					case <-quit:
+					}
+				}
+			})
+			defer verifhook.SetPoint(nil)
+			st["histories_with_slow_hashing"]++
+		}
 		e.honestSeedUp = func() bool {
 			for _, s := range e.seeds {
 				if s.Honest && !s.Closed() {
@@ -338,6 +383,10 @@ func history(t *testing.T, c *vk.C, rng *rand.Rand, i int) map[string]int {
 		for k := 0; k < rng.IntN(3); k++ {
 			newSeed(e, rng, false)
 		}
+		if i%8 == 0 {
+			// the explicit family with slow hashing always has a peer that corrupts every other chunk
+			newSeedMode(e, rng, false, &swarm.SeedMode{CorruptEvery: 2, CorruptWhole: true})
+		}
 		sw.Cut()
 		var rs []*rmodel
 		// a Reader that is garbage-collected unclosed would run its finalizer (Close) outside the
@@ -364,8 +413,14 @@ func history(t *testing.T, c *vk.C, rng *rand.Rand, i int) map[string]int {
 				return
 			}
 			if first.pos < first.ln {
+				h0 := e.hashing.Load()
 				e.evict(true, rng)
-				if !e.readOnce(first, 10) {
+				if e.hashing.Load() == h0 {
+					e.awaitHashing()
+				} else if e.slowHash {
+					st["reads_while_a_piece_is_being_hashed"]++
+				}
+				if !e.readOnce(first, []int{10, 65536}[i/8%2]) {
 					return
 				}
 				st["explicit_evicted_between_reads"]++
@@ -410,6 +465,13 @@ func history(t *testing.T, c *vk.C, rng *rand.Rand, i int) map[string]int {
 				}
 			case x < 72:
 				e.evict(rng.IntN(2) == 0, rng)
+				if e.slowHash && rng.IntN(2) == 0 {
+					// the paused reader comes back exactly while the piece it was in is being verified again
+					e.awaitHashing()
+					if !e.readOnce(m, bufSizes[rng.IntN(len(bufSizes))]) {
+						return
+					}
+				}
 			case x < 76: // the global memory manager under a small mark
 				config.MemoryMark = int64(g.PieceLen) * int64(1+rng.IntN(3))
 				rc := tor.Expire()
